@@ -145,15 +145,29 @@ PROPS['C16'] = Prop(
     assumptions=['Callback type is the default std::function (the removers wrap the listener in their own functor type); engine checks add/sub nsw, so signed overflow of the trigger count is a violation'])
 
 _AI = 'AnyId<Dig,%s>: three ids (%s) with fully symbolic 64-bit digests and 32-bit values of two value types; the digest is constrained only to be a function of the value (collisions allowed)'
+def _c18(tier):
+    q = tier == 'quick'
+    dv = (lambda v: {'DISPV': v}) if q else (lambda v: {})
+    how = lambda v: ('; dispatched ' + ['by a temporary id', 'by an id object (non-const lvalue)', 'by a const id object', 'by the raw value (converted by the dispatcher)'][v]) if q else '; dispatched by a temporary id / an id lvalue / a const id / the raw value (all four)'
+    allhow = '; dispatched by a temporary id / an id lvalue / a const id / the raw value (all four)'
+    reg = '; listeners registered through an id lvalue, a raw value and a temporary id'
+    def R(name, st, mk, text, d=None, **kw):
+        defs = {'STORAGE': st, 'MAPK': mk}; defs.update(d or {})
+        return Run(name, 'anyid.cpp', defs, covers=3 if mk == 0 else 5, optional_covers=() if mk == 0 else (1, 2), bounds=text, **kw)
+    laws = 'laws (equivalence, strict weak order, incomparability = equality, hash agreement, copies/moves/assignment of ids are the same id)'
+    return [R('anyid_laws_storage', 1, 0, _AI % ('value storage with == and <', laws)),
+            R('anyid_laws_nostorage', 0, 0, _AI % ('EmptyAnyStorage', laws)),
+            R('anyid_laws_nostorage_d128', 0, 0, _AI % ('EmptyAnyStorage', laws) + '; the Digester returns a 128-bit digest (wider than size_t), both halves symbolic', {'DIGW': 128}),
+            R('anyid_laws_anystorage', 2, 0, _AI % ('value storage constructible from a value of ANY type (std::any-like), with == and <', laws)),
+            BmcRun('anyid_laws_cbmc', 'anyid_kernel.cpp', 'anyid_laws.c', bounds='E-bmc cross-check: the real operator==, operator< and std::hash<AnyId> (both storages) lowered by clang, translated IR->C, and 15 laws over three ids decided by CBMC in one merged formula: fully symbolic 64-bit digests and 32-bit values, no loops (unwind 4 with unwinding assertions)'),
+            R('anyid_map_anystorage', 2, 1, _AI % ('value storage constructible from any type', 'std::map dispatcher: 3 registered ids, dispatch by a 4th') + reg + how(1), dv(1), budget_s=900),
+            R('anyid_map_storage', 1, 1, _AI % ('value storage', 'std::map dispatcher: 3 registered ids, dispatch by a 4th') + reg + how(0), dv(0), budget_s=900),
+            R('anyid_hash_storage', 1, 2, _AI % ('value storage', 'std::unordered_map dispatcher: 2 registered ids, dispatch by a 3rd; digests restricted to 8 significant bits in this run (13 buckets: every symbolic lookup forks 13 ways)') + reg + how(1), dv(1), budget_s=1700),
+            R('anyid_map_nostorage', 0, 1, _AI % ('EmptyAnyStorage', 'std::map dispatcher') + reg + allhow),
+            R('anyid_hash_nostorage', 0, 2, _AI % ('EmptyAnyStorage', 'std::unordered_map dispatcher: 2 registered ids + 1; digests restricted to 8 significant bits in this run') + reg + how(3), dv(3), budget_s=900)]
 PROPS['C18'] = Prop(
-    quick=[Run('anyid_laws_storage', 'anyid.cpp', {'STORAGE': 1, 'MAPK': 0}, covers=3, bounds=_AI % ('value storage with == and <', 'laws')),
-           Run('anyid_laws_nostorage', 'anyid.cpp', {'STORAGE': 0, 'MAPK': 0}, covers=3, bounds=_AI % ('EmptyAnyStorage', 'laws')),
-           BmcRun('anyid_laws_cbmc', 'anyid_kernel.cpp', 'anyid_laws.c', bounds='E-bmc cross-check: the real operator==, operator< and std::hash<AnyId> (both storages) lowered by clang, translated IR->C, and 15 laws over three ids decided by CBMC in one merged formula: fully symbolic 64-bit digests and 32-bit values, no loops (unwind 4 with unwinding assertions)'),
-           Run('anyid_map_storage', 'anyid.cpp', {'STORAGE': 1, 'MAPK': 1}, covers=5, optional_covers=(1, 2), bounds=_AI % ('value storage', 'std::map dispatcher: 3 registered ids, dispatch by a 4th')),
-           Run('anyid_hash_storage', 'anyid.cpp', {'STORAGE': 1, 'MAPK': 2}, covers=5, optional_covers=(1, 2), bounds=_AI % ('value storage', 'std::unordered_map dispatcher: 2 registered ids, dispatch by a 3rd; digests restricted to 8 significant bits in this run (13 buckets: every symbolic lookup forks 13 ways)')),
-           Run('anyid_map_nostorage', 'anyid.cpp', {'STORAGE': 0, 'MAPK': 1}, covers=5, optional_covers=(1, 2), bounds=_AI % ('EmptyAnyStorage', 'std::map dispatcher')),
-           Run('anyid_hash_nostorage', 'anyid.cpp', {'STORAGE': 0, 'MAPK': 2}, covers=5, optional_covers=(1, 2), bounds=_AI % ('EmptyAnyStorage', 'std::unordered_map dispatcher: 2 registered ids + 1; digests restricted to 8 significant bits in this run'))],
-    outside='more than three ids in a law / four in a dispatcher; Storage types supporting only one of == and <; std::any storage',
+    quick=_c18('quick'), thorough=_c18('thorough'),
+    outside='more than three ids in a law / four in a dispatcher; Storage types supporting only one of == and <; std::any itself (it has no == / <); digest types other than 64 and 128 bits',
     assumptions=['Digester is a functional stub (arbitrary 64-bit digest per distinct value); unordered_map bucket growth is the model in support/stdsupport.cpp'])
 
 _AD = ('AnyData<%d> (effective capacity %d): stored types = trivially copyable structs of 1, 2, 8, cap-1, cap, cap+1, cap+9 bytes with fully symbolic contents; ledger-tracked copyable and move-only '
